@@ -489,6 +489,10 @@ def handle (ts : List String) : String :=
       | some b => encBool b
       | none => "na"
     | none => "bad-op"
+  | "spec" :: "istrue" :: rest =>
+    match runP pBool rest with
+    | some b => encBool b
+    | none => "bad-op"
   | "spec" :: "readsback" :: rest =>
     match runP pMsg rest with
     | some m => encBool (Spec.Dev.readsBack Generated.registry m)
